@@ -33,9 +33,8 @@ META = {
     "explanation": "",
     "assumptions": ["synthetic ordering rulebooks have pairwise disjoint sibling languages (decided by z3 on the compiled regexes)",
                     "RefOrder: rank = index of the matching ordering rule for direct commands (0 when none), the negated index for "
-                    "commands matching only through the negated form, the positive index when an %order_reverse rule pins them"],
-    "outside": ["overlapping sibling ordering rules (best-match weight heuristic)", "ref_insert with a non-empty RefTracker",
-                "%scope"],
+                    "commands matching only through the negated form, the positive index when an %order_reverse rule pins them; rules with a %scope take part only in that scope (patches: 'patch', generated configurations: none)"],
+    "outside": ["overlapping sibling ordering rules (best-match weight heuristic)", "ref_insert with a non-empty RefTracker (exercised in C20)"],
     "bounds": {},
 }
 
